@@ -707,7 +707,9 @@ func cmdSer(args []string) int {
 			bigO.Elems = append(bigO.Elems, &jsonx.CTree{Kind: 's', S: "value"})
 		}
 		small := &jsonx.CTree{Kind: 'L', Elems: []*jsonx.CTree{{Kind: 'i', I: 1}, {Kind: 'O', Keys: []string{"a"}, Elems: []*jsonx.CTree{{Kind: 'z'}}}}}
-		seq = append(seq, big, small, small, bigO, small, big, chain(4, true), small)
+		long := strings.Repeat("long line ", 7000)
+		longNested := &jsonx.CTree{Kind: 'L', Elems: []*jsonx.CTree{{Kind: 'O', Keys: []string{"text", long[:66000]}, Elems: []*jsonx.CTree{{Kind: 's', S: long}, {Kind: 'L', Elems: []*jsonx.CTree{{Kind: 's', S: long[:65600]}, {Kind: 'i', I: 1}}}}}, {Kind: 'i', I: 2}}}
+		seq = append(seq, big, small, small, bigO, small, big, chain(4, true), small, longNested, small)
 		for i, ct := range seq {
 			text, err := runSerCheck(*check, ct, i%3, nil, true)
 			atomic.AddInt64(&st.evals, 1)
